@@ -355,19 +355,54 @@ class C04Property:
                     return
             chk.failing_input(sig, replay)
 
+        import signal
+
+        class _CaseTimeout(Exception):
+            pass
+
+        def _alarm(signum, frame):
+            raise _CaseTimeout()
+
+        cap = {"quick": 240, "thorough": 1200}[tier]
+        signal.signal(signal.SIGALRM, _alarm)
+
+        # ---- histories (HARDENING rule 3/6): the same case on a fixed event set, (a) before anything else was
+        # formulated in this process, (b) after everything else, (c) in fresh interpreters with other hash seeds
+        from tools.search import C04_fresh
+
+        hist_cases = [orc.Case(orc.RHO, ("rho(770)+", "rho(770)-"), "axis")]
+        if tier == "thorough":
+            hist_cases += [orc.Case("synthetic_J0_spin_at_1", (), "axis"), orc.Case(orc.RHO, ("rho(770)+", "rho(770)-"), "dpd1")]
+        early = {}
+        for hc in hist_cases:
+            try:
+                early[hc.id] = C04_fresh.fixed_values(hc)
+            except Exception as e:  # noqa: BLE001
+                early[hc.id] = {"error": "".join(traceback.format_exception_only(type(e), e))[-300:]}
+
+        degenerate = {}
         for case in orc.CASES:
             if tier == "quick" and case.tier != "quick":
                 continue
             t0 = time.time()
             entry = {"case": case.id}
+            signal.alarm(cap)
             try:
                 import dataclasses
 
-                ck = (case.reaction, case.keep, case.alignment)
+                ck = (case.reaction, case.keep, case.alignment, case.opts)
                 if ck not in built_cache:
                     built_cache[ck] = orc.build(case)
                 b = dataclasses.replace(built_cache[ck], case=case)
+            except _CaseTimeout:
+                signal.alarm(0)
+                report({"class": "case exceeded the wall-clock cap", "case": case.id},
+                       {"input": {"case": _case_dict(case)}, "observed": f"> {cap} s", "broken": chk.broken})
+                entry["error"] = "timeout"
+                summary.append(entry)
+                continue
             except Exception as e:  # noqa: BLE001  the real code cannot formulate/lambdify the model
+                signal.alarm(0)
                 err = "".join(traceback.format_exception(type(e), e, e.__traceback__))[-1500:]
                 sig = {"class": "the real code raised while the model was formulated", "case": case.id}
                 report(sig, {"input": {"case": _case_dict(case)}, "error": err, "broken": chk.broken})
@@ -409,8 +444,77 @@ class C04Property:
             elif len(chk.coverage["samples"]) < 4:
                 chk.sample({"case": case.id, "topologies": entry["topologies"], "events": r["n"],
                             "worst_relative_change": r["worst"]})
+            # degenerate / near-degenerate events (HARDENING rule 7), on two models of the quick tier
+            if case.id in (f"{orc.RHO}[rho(770)++rho(770)-]/none", f"{orc.SYN}[all]/axis") and r["fail"] is None:
+                try:
+                    probe = orc.degenerate_probe(b, g)
+                    degenerate[case.id] = probe
+                    for rec in probe:
+                        chk.count(("degenerate", case.id, rec["family"], rec["eps"]), n=2 * rec["events"])
+                        if rec["gating"] and not rec["ok"]:
+                            report({"class": "rotation non-invariance near a degenerate configuration", "case": case.id,
+                                    "family": rec["family"], "eps": rec["eps"]},
+                                   {"input": {"case": _case_dict(case), "family": rec}, "observed": rec,
+                                    "expected": "equal intensities within max(rtol, 1e-14/eps)", "broken": chk.broken})
+                except _CaseTimeout:
+                    raise
+                except Exception as e:  # noqa: BLE001
+                    degenerate[case.id] = {"error": "".join(traceback.format_exception_only(type(e), e))[-300:]}
+            signal.alarm(0)
             summary.append(entry)
+        signal.alarm(0)
         chk.info("oracle_cases", summary)
+        chk.info("degenerate_events", degenerate)
+
+        # ---- histories, continued
+        import subprocess
+
+        hist = {}
+        hash_seeds = [str(common.rng_for(PROP_ID, seed, "hash").randrange(1, 10**6))] if tier == "quick" else ["0", "1", "4242", ""]
+        for hc in hist_cases:
+            rec = {"hash_seeds": hash_seeds, "compared": 0}
+            vals = [("early", early[hc.id])]
+            try:
+                vals.append(("late", C04_fresh.fixed_values(hc)))
+            except Exception as e:  # noqa: BLE001
+                vals.append(("late", {"error": "".join(traceback.format_exception_only(type(e), e))[-300:]}))
+            for hs in hash_seeds:
+                env = dict(__import__("os").environ)
+                if hs:
+                    env["PYTHONHASHSEED"] = hs
+                else:
+                    env.pop("PYTHONHASHSEED", None)
+                try:
+                    pr = subprocess.run([common.PY, str(common.ROOT / "tools" / "search" / "C04_fresh.py"),
+                                         json.dumps(_case_dict(hc))], cwd=common.ROOT, env=env, capture_output=True,
+                                        text=True, timeout=600)
+                except subprocess.TimeoutExpired as e:
+                    raise common.InfraError(f"fresh-process evaluation of {hc.id} timed out") from e
+                line = next((ln for ln in pr.stdout.splitlines() if ln.startswith("C04FRESH ")), None)
+                vals.append((f"fresh:{hs or 'unset'}", json.loads(line[9:]) if line else {"error": pr.stderr[-400:]}))
+            ref = vals[0][1]
+            orders = {}
+            for tag, v in vals:
+                for k2, o in (v.get("order") or {}).items():
+                    orders.setdefault(k2, set()).add(tuple(o))
+                if "error" in v or "error" in ref:
+                    report({"class": "the real code raised in a fresh process / after other models", "case": hc.id, "where": tag},
+                           {"input": {"case": _case_dict(hc)}, "error": v.get("error") or ref.get("error"), "broken": chk.broken})
+                    continue
+                for key2 in ("intensity", "intensity_rotated"):
+                    a_, b_ = np.array(ref[key2]), np.array(v[key2])
+                    sc = np.maximum(np.abs(a_), np.abs(b_))
+                    dev = float(np.max(np.abs(a_ - b_) / np.where(sc > 0, sc, 1)))
+                    rec["compared"] += len(a_)
+                    chk.count(("history", hc.id, tag, key2), n=len(a_))
+                    rec["worst"] = max(rec.get("worst", 0.0), dev)
+                    if not dev <= 1e-10:
+                        report({"class": "intensity depends on the history of the process or on the hash seed", "case": hc.id,
+                                "where": tag}, {"input": {"case": _case_dict(hc)}, "observed": {"reference(early)": ref[key2], tag: v[key2]},
+                                                "expected": "identical values", "broken": chk.broken})
+            rec["distinct_iteration_orders_observed"] = {k2: len(o) for k2, o in orders.items()}
+            hist[hc.id] = rec
+        chk.info("histories", hist)
         chk.info("events_with_a_wigner_rotation_beyond_90deg", beyond90)
         if chk.broken and new_found == 0:
             for bk in chk.broken:
@@ -458,7 +562,8 @@ class C04Property:
 
 
 def _case_dict(case) -> dict:
-    return {"reaction": case.reaction, "keep": list(case.keep), "alignment": case.alignment, "events": case.events}
+    return {"reaction": case.reaction, "keep": list(case.keep), "alignment": case.alignment, "events": case.events,
+            "opts": list(case.opts)}
 
 
 def replay(rep: dict) -> int:
